@@ -1,15 +1,11 @@
-#check @List.modify
-#check @List.getElem?_modify
-#check @List.length_modify
-#check @List.getD_eq_getElem?_getD
-#check @List.eraseDups_cons
-#check @List.foldl_append
-#check @List.sum_append
-#check @List.getElem?_set
-#check @List.getElem?_replicate
-#check @List.zipIdx
-example : (decide ("a" < "b")) = true := by decide
-#eval [1,2,3].modify 1 (· + 10)
-#print List.modify
-#check @String.lt_irrefl
-#check (inferInstance : DecidableEq Rat)
+import PgFdr.Proofs.C12
+open PgFdr.C12 PgFdr.C17
+def r1 : Row := { id := 0, peptide := "AAK", charge := 2, experiment := "E1", fraction := "-1", leading := ["P1"], intensity := some 100, pep := .fin (1/1000), silac := [60, 40], tmt := [] }
+def r2 : Row := { id := 1, peptide := "AAK", charge := 2, experiment := "E2", fraction := "-1", leading := ["P1","REV__P9"], intensity := some 50, pep := .nan, silac := [30, 20], tmt := [] }
+def r3 : Row := { id := 2, peptide := "CCK", charge := 2, experiment := "E2", fraction := "-1", leading := ["P1","P3"], intensity := some 7, pep := .fin (1/1000), silac := [3, 4], tmt := [] }
+example : expIdx ["E1","E2"] "E2" = some 1 := by decide +kernel
+example : experiments [r1, r2, r3] = ["E1","E2"] := by decide +kernel
+example : attachTo [["P1","P2"],["P3"]] r2 = [0] := by decide +kernel
+example : attachTo [["P1","P2"],["P3"]] r3 = [] := by decide +kernel
+example : intensities ["E1","E2"] 2 (1/100) [r1, r2] = [100, 60, 40, 50, 30, 20] := by decide +kernel
+example : (quantifyWith 2 [r1,r2,r3] [["P1","P2"],["P3"]] (1/100) [("P1", 3)]).groups.map (·.total) = [150] := by decide +kernel
